@@ -1,6 +1,7 @@
 package main
 
 import (
+	"regexp"
 	"fmt"
 	"sort"
 	"strings"
@@ -200,6 +201,8 @@ func reachableFragments(doc *ast.QueryDocument, op *ast.OperationDefinition) []s
 // operations and fragments in the same package which use this type should have matching directives
 // ... This is not currently validated" — such programs are outside the supported usage, because the
 // shape of the shared Go type then depends on which operation is converted first.
+var typenameArgRe = regexp.MustCompile(`,?\s*typename:\s*"[^"]*"`)
+
 func sharedInputMismatch(schema *ast.Schema, defs []gen.Def) bool {
 	doc, err := parser.ParseQuery(&ast.Source{Name: "q", Input: (&gen.Program{Defs: defs}).OperationsText()})
 	if err != nil {
@@ -231,8 +234,13 @@ func sharedInputMismatch(schema *ast.Schema, defs []gen.Def) bool {
 		var lines []string
 		for _, l := range strings.Split(d.Comment, "\n") {
 			l = strings.TrimSpace(l)
-			if strings.HasPrefix(l, "# @genqlient") && !strings.Contains(l, "typename:") {
-				lines = append(lines, l)
+			if strings.HasPrefix(l, "# @genqlient") {
+				// the operation's own typename does not reach its input types; every other option does
+				l = typenameArgRe.ReplaceAllString(l, "")
+				l = strings.ReplaceAll(strings.ReplaceAll(l, "(, ", "("), ", )", ")")
+				if l != "# @genqlient()" {
+					lines = append(lines, l)
+				}
 			}
 		}
 		sort.Strings(lines)
